@@ -14,12 +14,141 @@ theorem C11_rows_preserved (s : Sem) (build : List Str → (Str → Bool))
     allRows [mergeFile s build groups] = (groups.flatMap id).flatMap (·.rows) :=
   merge_rows_preserved_aux s build groups hg
 
+/-- witness engine parameters: split-on-blank tokenizer, "pattern is a prefix of the text" as regex oracle,
+    exact-membership filters -/
+private def nv_sem : Sem := { tok := fieldsOn (fun c => c == ' '), re := fun p t => p.isPrefixOf t }
+private def nv_build : List Str → (Str → Bool) := fun l x => l.contains x
+/-- witness prefilter view of a row: partition `pid`, one indexed value under key "n" -/
+private def nv_pre (pid : String) (v : NumVal) : RowPre :=
+  { pid := pid, vals := fun f => if f = "n" then some v else none }
+private def nv_r1 : Row :=
+  { json := .obj [("a".toList, .obj [("b".toList, .str "hello world".toList), ("n".toList, .num "42".toList)])],
+    pre := nv_pre "p1" (.int 42) }
+private def nv_r2 : Row :=
+  { json := .obj [("a".toList, .obj [("b".toList, .str "bye world".toList)])], pre := nv_pre "p1" (.int 7) }
+private def nv_r3 : Row :=
+  { json := .obj [("a".toList, .str "hello".toList)], pre := nv_pre "p2" (.int 45) }
+private def nv_r4 : Row :=
+  { json := .obj [("a".toList, .obj [("b".toList, .str "help the world".toList)])], pre := nv_pre "p1" (.int 100) }
+/-- witness source blocks as flush builds them: two blocks of partition p1 (ranges [7, 42] and [100, 100]), one of p2 -/
+private def nv_b1 : Block := mkBlock nv_sem nv_build ["n"] "p1" [nv_r1, nv_r2]
+private def nv_b2 : Block := mkBlock nv_sem nv_build ["n"] "p1" [nv_r4]
+private def nv_b3 : Block := mkBlock nv_sem nv_build ["n"] "p2" [nv_r3]
+
+/-- non-vacuity: a grouping with a two-block group and a singleton group; all four rows survive, in order -/
+example :
+    let groups := [[nv_b1, nv_b2], [nv_b3]]
+    (∀ g ∈ groups, g ≠ []) ∧
+    allRows [mergeFile nv_sem nv_build groups] = (groups.flatMap id).flatMap (·.rows) ∧
+    (groups.flatMap id).flatMap (·.rows) = [nv_r1, nv_r2, nv_r4, nv_r3] := by
+  intro groups
+  have hg : ∀ g ∈ groups, g ≠ [] := by
+    intro g hg
+    simp only [groups, List.mem_cons, List.mem_nil_iff, or_false] at hg
+    rcases hg with rfl | rfl <;> simp
+  exact ⟨hg, C11_rows_preserved nv_sem nv_build groups hg, by rfl⟩
+
 /-- Every row stays in a block with its partition ID whose minmax ranges cover its values. -/
 theorem C11_partition_minmax (s : Sem) (build : List Str → (Str → Bool)) (hb : SoundBuild build)
     (groups : List (List Block)) (hg : ∀ g ∈ groups, ValidGroup g)
     (hwf : ∀ g ∈ groups, ∀ b ∈ g, BlockWF s b) :
     ∀ b' ∈ (mergeFile s build groups).blocks, ∀ r ∈ b'.rows, Covers b'.md r.pre :=
   fun b' hb' r hr => ((merge_WF_aux s build hb groups hg hwf) b' hb').1 r hr |>.1
+
+/-- the witness grouping bundled with its certificates: valid groups (shared partition ID and key set), index-covered
+    blocks, ordered in-range minmax entries -/
+private def nv_groups : { groups : List (List Block) //
+    (∀ g ∈ groups, ValidGroup g) ∧ (∀ g ∈ groups, ∀ b ∈ g, BlockWF nv_sem b) ∧
+    (∀ g ∈ groups, ∀ b ∈ g, MDWF b.md) ∧
+    (∀ g ∈ groups, ∀ b ∈ g, ∀ p ∈ b.md.MinMaxIndexes, InI64 p.2.Min ∧ InI64 p.2.Max) } :=
+  ⟨[[nv_b1, nv_b2], [nv_b3]], by
+    have hsb : SoundBuild nv_build := by intro l x h; simp [nv_build, h]
+    have hvals : ∀ pid v f w, (nv_pre pid v).vals f = some w → f ∈ ["n"] := by
+      intro pid v f w h; simp only [nv_pre] at h; split at h
+      · simp [*]
+      · cases h
+    -- every block: its partition, its single-key minmax map, and the per-block certificates
+    have hblk : ∀ (pid : String) (rows : List Row) (mm : MinMaxIndex),
+        (∀ r ∈ rows, r.pre.pid = pid) → (∀ r ∈ rows, ∃ v, r.pre = nv_pre pid v) →
+        blockMinMax ["n"] rows = [("n", mm)] → mm.Min ≤ mm.Max ∧ InI64 mm.Min ∧ InI64 mm.Max →
+        let b := mkBlock nv_sem nv_build ["n"] pid rows
+        b.md.PartitionID = pid ∧ (∀ k, (b.md.MinMaxIndexes.lookup k).isSome = (k == "n")) ∧
+        BlockWF nv_sem b ∧ MDWF b.md ∧ ∀ p ∈ b.md.MinMaxIndexes, InI64 p.2.Min ∧ InI64 p.2.Max := by
+      intro pid rows mm hp hv hmm hin b
+      have e : b.md.MinMaxIndexes = [("n", mm)] := hmm
+      refine ⟨rfl, ?_, ?_, ?_, ?_⟩
+      · intro k; rw [e]; simp only [List.lookup_cons, List.lookup_nil]; cases (k == "n") <;> rfl
+      · refine mkBlock_WF_aux nv_sem nv_build hsb _ _ _ hp ?_
+        intro r hr f w h
+        obtain ⟨v, hv'⟩ := hv r hr
+        rw [hv'] at h; exact hvals _ _ f w h
+      · intro k m hl
+        unfold lookupMM at hl; rw [e] at hl
+        simp only [List.lookup_cons, List.lookup_nil] at hl
+        cases hk : (k == "n") <;> rw [hk] at hl <;> cases hl
+        exact hin
+      · intro p hp; rw [e] at hp
+        simp only [List.mem_cons, List.mem_nil_iff, or_false] at hp; subst hp; exact hin.2
+    have h1 := hblk "p1" [nv_r1, nv_r2] ⟨7, 42⟩ (by decide)
+      (by intro r hr; simp only [List.mem_cons, List.mem_nil_iff, or_false] at hr
+          rcases hr with rfl | rfl <;> exact ⟨_, rfl⟩) (by decide) (by decide)
+    have h2 := hblk "p1" [nv_r4] ⟨100, 100⟩ (by decide)
+      (by intro r hr; simp only [List.mem_cons, List.mem_nil_iff, or_false] at hr; subst hr; exact ⟨_, rfl⟩)
+      (by decide) (by decide)
+    have h3 := hblk "p2" [nv_r3] ⟨45, 45⟩ (by decide)
+      (by intro r hr; simp only [List.mem_cons, List.mem_nil_iff, or_false] at hr; subst hr; exact ⟨_, rfl⟩)
+      (by decide) (by decide)
+    have hmem : ∀ g ∈ [[nv_b1, nv_b2], [nv_b3]], ∀ b ∈ g,
+        (g = [nv_b1, nv_b2] ∧ (b = nv_b1 ∨ b = nv_b2)) ∨ (g = [nv_b3] ∧ b = nv_b3) := by
+      intro g hg b hb
+      simp only [List.mem_cons, List.mem_nil_iff, or_false] at hg
+      rcases hg with rfl | rfl
+      · left; exact ⟨rfl, by simpa using hb⟩
+      · right; exact ⟨rfl, by simpa using hb⟩
+    refine ⟨?_, ?_, ?_, ?_⟩
+    · intro g hg
+      refine ⟨?_, ?_⟩
+      · simp only [List.mem_cons, List.mem_nil_iff, or_false] at hg
+        rcases hg with rfl | rfl <;> simp
+      · intro x hx y hy
+        have hK : ∃ pid, ∀ b ∈ g, b.md.PartitionID = pid ∧ ∀ k, (b.md.MinMaxIndexes.lookup k).isSome = (k == "n") := by
+          simp only [List.mem_cons, List.mem_nil_iff, or_false] at hg
+          rcases hg with rfl | rfl
+          · refine ⟨"p1", fun b hb => ?_⟩
+            simp only [List.mem_cons, List.mem_nil_iff, or_false] at hb
+            rcases hb with rfl | rfl
+            · exact ⟨h1.1, h1.2.1⟩
+            · exact ⟨h2.1, h2.2.1⟩
+          · refine ⟨"p2", fun b hb => ?_⟩
+            simp only [List.mem_cons, List.mem_nil_iff, or_false] at hb
+            subst hb; exact ⟨h3.1, h3.2.1⟩
+        obtain ⟨pid, hK⟩ := hK
+        exact ⟨(hK x hx).1.trans (hK y hy).1.symm, fun k => ((hK x hx).2 k).trans ((hK y hy).2 k).symm⟩
+    · intro g hg b hb
+      rcases hmem g hg b hb with ⟨_, rfl | rfl⟩ | ⟨_, rfl⟩
+      · exact h1.2.2.1
+      · exact h2.2.2.1
+      · exact h3.2.2.1
+    · intro g hg b hb
+      rcases hmem g hg b hb with ⟨_, rfl | rfl⟩ | ⟨_, rfl⟩
+      · exact h1.2.2.2.1
+      · exact h2.2.2.2.1
+      · exact h3.2.2.2.1
+    · intro g hg b hb
+      rcases hmem g hg b hb with ⟨_, rfl | rfl⟩ | ⟨_, rfl⟩
+      · exact h1.2.2.2.2
+      · exact h2.2.2.2.2
+      · exact h3.2.2.2.2⟩
+
+/-- non-vacuity: sound builder, valid groups, index-covered source blocks; the merged p1 block (three rows, range [7, 100] for "n") covers each of its rows -/
+example :
+    SoundBuild nv_build ∧ (∀ g ∈ nv_groups.1, ValidGroup g) ∧ (∀ g ∈ nv_groups.1, ∀ b ∈ g, BlockWF nv_sem b) ∧
+    (∀ b' ∈ (mergeFile nv_sem nv_build nv_groups.1).blocks, ∀ r ∈ b'.rows, Covers b'.md r.pre) ∧
+    (mergeFile nv_sem nv_build nv_groups.1).blocks.map (fun b => (b.md.PartitionID, b.md.MinMaxIndexes, b.rows.length)) =
+      [("p1", [("n", ⟨7, 100⟩)], 3), ("p2", [("n", ⟨45, 45⟩)], 1)] := by
+  have hsb : SoundBuild nv_build := by intro l x h; simp [nv_build, h]
+  exact ⟨hsb, nv_groups.2.1, nv_groups.2.2.1,
+    C11_partition_minmax nv_sem nv_build hsb nv_groups.1 nv_groups.2.1 nv_groups.2.2.1, by decide⟩
 
 /-- A query without a prefilter returns exactly the matching rows of the unchanged row list —
     the same answer as before the merge (`C02_exact_no_prefilter` on both sides). -/
@@ -33,6 +162,22 @@ theorem C11_query_same (s : Sem) (build : List Str → (Str → Bool)) (hb : Sou
         exact merge_WF_aux s build hb groups hg hwf) hv hpre]
   rw [merge_rows_preserved_aux s build groups (fun g h => (hg g h).1)]
 
+/-- non-vacuity: a compiling bloom + regex query without prefilter over the merged file meets all six premises; it returns two of the four stored rows -/
+example :
+    let q : Query :=
+      { bloom := some (.mk "CONDITION" (some { Kind := "FIELD_TOKEN", Field := "a.b".toList, Token := "world".toList }) []),
+        regex := some (.mk "OR" none [.mk "CONDITION" (some { Field := "a.b".toList, Pattern := "hel".toList }) []]) }
+    SoundBuild nv_build ∧ (∀ g ∈ nv_groups.1, ValidGroup g) ∧ (∀ g ∈ nv_groups.1, ∀ b ∈ g, BlockWF nv_sem b) ∧
+    q.Valid (fun p => !p.isEmpty) ∧ q.pre = none ∧
+    query nv_sem [mergeFile nv_sem nv_build nv_groups.1] q =
+      ((nv_groups.1.flatMap id).flatMap (·.rows)).filter (rowMatches nv_sem q) ∧
+    query nv_sem [mergeFile nv_sem nv_build nv_groups.1] q = [nv_r1, nv_r4] := by
+  intro q
+  have hsb : SoundBuild nv_build := by intro l x h; simp [nv_build, h]
+  have hv : q.Valid (fun p => !p.isEmpty) := by intro e he; cases he; decide
+  exact ⟨hsb, nv_groups.2.1, nv_groups.2.2.1, hv, rfl,
+    C11_query_same nv_sem nv_build hsb _ nv_groups.1 q nv_groups.2.1 nv_groups.2.2.1 hv rfl, by rfl⟩
+
 /-- A query with a prefilter returns a superset of its pre-merge answer … -/
 theorem C11_query_superset (s : Sem) (build : List Str → (Str → Bool)) (hb : SoundBuild build)
     (reOK : Str → Bool) (groups : List (List Block)) (q : Query)
@@ -45,9 +190,41 @@ theorem C11_query_superset (s : Sem) (build : List Str → (Str → Bool)) (hb :
     r ∈ query s [mergeFile s build groups] q :=
   merge_query_superset_aux s build hb reOK groups q hg hwf hmd hpairs hv g b r hgm hbm hr hpre hm
 
+/-- witness prefilter query: partition = p1 AND n ≤ 42; token "world" under a.b; regex a.b ~ "hel" -/
+private def nv_q : Query :=
+  { pre := some (.mk "AND" none
+      [.mk "CONDITION" (some { ConditionType := "PARTITION", PartitionCondition := some ({ Operator := "EQ", Value := "p1" } : StringCondition) }) [],
+       .mk "CONDITION" (some { ConditionType := "MINMAX", MinMaxFieldName := "n", MinMaxCondition := some ({ Operator := "LTE", Value := 42 } : NumericCondition) }) []]),
+    bloom := some (.mk "CONDITION" (some { Kind := "FIELD_TOKEN", Field := "a.b".toList, Token := "world".toList }) []),
+    regex := some (.mk "OR" none [.mk "CONDITION" (some { Field := "a.b".toList, Pattern := "hel".toList }) []]) }
+
+/-- non-vacuity: all thirteen premises hold for the prefilter query, the two-block group, its first block and the nested row; the superset is proper here (`nv_r4` is new) -/
+example :
+    SoundBuild nv_build ∧ (∀ g ∈ nv_groups.1, ValidGroup g) ∧ (∀ g ∈ nv_groups.1, ∀ b ∈ g, BlockWF nv_sem b) ∧
+    (∀ g ∈ nv_groups.1, ∀ b ∈ g, MDWF b.md) ∧
+    (∀ g ∈ nv_groups.1, ∀ b ∈ g, ∀ p ∈ b.md.MinMaxIndexes, InI64 p.2.Min ∧ InI64 p.2.Max) ∧
+    nv_q.Valid (fun p => !p.isEmpty) ∧ [nv_b1, nv_b2] ∈ nv_groups.1 ∧ nv_b1 ∈ [nv_b1, nv_b2] ∧ nv_r1 ∈ nv_b1.rows ∧
+    evalPre nv_b1.md nv_q.pre = true ∧ rowMatches nv_sem nv_q nv_r1 = true ∧
+    nv_r1 ∈ query nv_sem [mergeFile nv_sem nv_build nv_groups.1] nv_q ∧
+    evalPre nv_b2.md nv_q.pre = false ∧ query nv_sem [mergeFile nv_sem nv_build nv_groups.1] nv_q = [nv_r1, nv_r4] := by
+  have hsb : SoundBuild nv_build := by intro l x h; simp [nv_build, h]
+  have hv : nv_q.Valid (fun p => !p.isEmpty) := by intro e he; cases he; decide
+  exact ⟨hsb, nv_groups.2.1, nv_groups.2.2.1, nv_groups.2.2.2.1, nv_groups.2.2.2.2, hv, .head _, .head _, .head _,
+    by decide, by decide,
+    C11_query_superset nv_sem nv_build hsb _ nv_groups.1 nv_q nv_groups.2.1 nv_groups.2.2.1 nv_groups.2.2.2.1
+      nv_groups.2.2.2.2 hv [nv_b1, nv_b2] nv_b1 nv_r1 (.head _) (.head _) (.head _) (by decide) (by decide),
+    by decide, by rfl⟩
+
 /-- … limited to rows that match its bloom and regex expression. -/
 theorem C11_query_limited (s : Sem) (build : List Str → (Str → Bool)) (groups : List (List Block))
     (q : Query) (r : Row) (h : r ∈ query s [mergeFile s build groups] q) : rowMatches s q r = true :=
   (C02.query_sound s _ q r h).2
+
+/-- non-vacuity: the row returned after the merge although its source block was pruned before the merge does match the bloom and regex expressions -/
+example :
+    nv_r4 ∈ query nv_sem [mergeFile nv_sem nv_build nv_groups.1] nv_q ∧ rowMatches nv_sem nv_q nv_r4 = true := by
+  have e : query nv_sem [mergeFile nv_sem nv_build nv_groups.1] nv_q = [nv_r1, nv_r4] := by rfl
+  have h : nv_r4 ∈ query nv_sem [mergeFile nv_sem nv_build nv_groups.1] nv_q := by rw [e]; exact .tail _ (.head _)
+  exact ⟨h, C11_query_limited nv_sem nv_build nv_groups.1 nv_q nv_r4 h⟩
 
 end BloomVerif.C11
